@@ -98,7 +98,15 @@ def oracle_c08(b, report, modes=None):
         if kind == 'sym':
             t = n.symlink.decode('utf-8', 'replace') if isinstance(n.symlink, bytes) else n.symlink
             if t != target:
-                report('rr-symlink-target', 'symlink %s: an RRIP reader reassembles %r..., the target given was %r...'
+                pieces = target.split('/')
+                cls = 'plain'
+                if target == '/':
+                    cls = 'root-only'
+                elif any(q.startswith('.') and q not in ('.', '..') for q in pieces):
+                    cls = 'piece-starting-with-dot'
+                elif t is not None and target.startswith(t) and len(pieces) >= 20:
+                    cls = 'truncated-many-components'
+                report('rr-symlink-target:' + cls, 'symlink %s: an RRIP reader reassembles %r..., the target given was %r...'
                        % (p, (t or '')[:50], target[:50]), None)
     if not relocated:
         for m in reader.check_rr_nlink(rd):
